@@ -109,6 +109,8 @@ pub fn fault_message(f: &Fault, string_ids: bool) -> Option<Vec<u8>> {
 				}
 				match i % 3 {
 					0 => s.push_str(&format!("{{\"jsonrpc\":\"2.0\",\"id\":{},\"result\":0}}", 500_000 + k)),
+					// (an array of nothing but notifications would be a legitimate message: the last element is junk)
+					1 if k + 1 == n => s.push('7'),
 					1 => s.push_str("{\"jsonrpc\":\"2.0\",\"method\":\"m\",\"params\":[1]}"),
 					_ => s.push('7'),
 				}
